@@ -344,6 +344,49 @@ pub fn check_additive(a: &Additive) -> Result<(usize, usize, usize), (String, St
     Ok((s, b, t))
 }
 
+#[derive(Clone, Debug, serde_derive::Serialize, serde_derive::Deserialize)]
+pub struct Retention {
+    pub stream: crate::retention::Stream,
+    pub selectors: Vec<String>,
+    pub doc_handlers: bool,
+    pub chunk: usize,
+    pub n: usize,
+    pub limit: usize,
+}
+
+pub const RETENTION_SELECTORS: &[&str] = &[
+    "*", "div", "div span", "main > *", "[a]", "[a=b]", "*:nth-child(2)", "*:nth-of-type(2)", "span:nth-of-type(odd)", ":not(p)", "section p", "li:first-child", "svg path", "main *:nth-of-type(3)", "p:first-of-type",
+];
+
+/// Streams of complete tokens with bounded nesting depth: whatever the rewriter still holds after n items it also holds
+/// after 4n items, up to the configured limit M ("no sequence of writes makes the rewriter ... grow its open-element
+/// bookkeeping beyond M"). Measured with the counting allocator on the bytes the current thread has live.
+/// Returns Ok(None) when one of the runs hit the memory limit (which is the permitted alternative).
+pub fn check_retention(r: &Retention) -> Result<Option<(isize, isize)>, (String, String)> {
+    let small = crate::retention::stream(r.stream, r.n);
+    let large = crate::retention::stream(r.stream, r.n * 4);
+    let a = crate::retention::retained_after(&r.selectors, r.doc_handlers, r.limit, &small, r.chunk);
+    let b = crate::retention::retained_after(&r.selectors, r.doc_handlers, r.limit, &large, r.chunk);
+    let (Some(a), Some(b)) = (a, b) else { return Ok(None) };
+    if b - a > r.limit as isize {
+        return Err((
+            "retained-heap-grows-beyond-limit".into(),
+            format!(
+                "after {} items of the {:?} stream (all tokens complete, nesting depth <= 6) the rewriter keeps {a} heap bytes alive, after {} items {b}: growth {} exceeds the memory limit of {} bytes and no write failed (selectors {:?}, document handlers {}, writes of {} bytes)",
+                r.n,
+                r.stream,
+                r.n * 4,
+                b - a,
+                r.limit,
+                r.selectors,
+                r.doc_handlers,
+                r.chunk
+            ),
+        ));
+    }
+    Ok(Some((a, b)))
+}
+
 impl Prop for C10 {
     fn id(&self) -> &'static str {
         "C10"
@@ -352,7 +395,7 @@ impl Prop for C10 {
         "fault_enumeration"
     }
     fn rule(&self) -> String {
-        "for growth-shaped inputs (unterminated tag / comment / attribute value / doctype / end tag, long tag name, deep nesting in HTML and foreign content, soup) x handler sets (pass-through, capturing observers, selectors) x write schedules x preallocation modes the memory limit M is swept over EVERY value from 0 to beyond the first succeeding one (small inputs) or geometrically (large); per run: accounted usage (hook) <= M and pending <= M after every successful call, only MemoryLimitExceeded as failure; per sweep: monotone success with identical output, >= 8 bytes charged per open element, determinism on re-runs; additivity: the smallest sufficient limit of (D open elements + an unfinished token split over two writes) is at least the sum of the limits the two parts need alone (one shared budget); non-trivial: the sweep contains both a failing and a succeeding limit; distinct = hash(input, schedule, config, prealloc mode)".into()
+        "for growth-shaped inputs (unterminated tag / comment / attribute value / doctype / end tag, long tag name, deep nesting in HTML and foreign content, soup) x handler sets (pass-through, capturing observers, selectors) x write schedules x preallocation modes the memory limit M is swept over EVERY value from 0 to beyond the first succeeding one (small inputs) or geometrically (large); per run: accounted usage (hook) <= M and pending <= M after every successful call, only MemoryLimitExceeded as failure; per sweep: monotone success with identical output, >= 8 bytes charged per open element, determinism on re-runs; additivity: the smallest sufficient limit of (D open elements + an unfinished token split over two writes) is at least the sum of the limits the two parts need alone (one shared budget); retention: for streams of complete tokens with bounded nesting depth (distinct long / short element names, names closed by their parent's end tag, stray end tags, comments and text, voids and foreign self-closing elements) the heap bytes the thread keeps alive for the rewriter after 4n items exceed those after n items by at most M unless a write fails (counting global allocator); non-trivial: the sweep contains both a failing and a succeeding limit; distinct = hash(input, schedule, config, prealloc mode)".into()
     }
     fn assumptions(&self) -> Vec<String> {
         vec![
@@ -367,6 +410,38 @@ impl Prop for C10 {
         for i in 0..n {
             if i % 4 == 0 && ctx.should_stop() {
                 break;
+            }
+            if i % 16 == 9 {
+                if !crate::retention::installed() {
+                    ctx.inconclusive("retention monitor: the counting allocator is not installed in this binary".to_string());
+                    continue;
+                }
+                let nsel = ctx.rng.below(4);
+                let r = Retention {
+                    stream: *ctx.rng.pick(crate::retention::STREAMS),
+                    selectors: (0..nsel).map(|_| (*ctx.rng.pick(RETENTION_SELECTORS)).to_string()).collect(),
+                    doc_handlers: ctx.rng.bool(),
+                    chunk: *ctx.rng.pick(&[97usize, 1000, 4096, 1 << 22]),
+                    n: *ctx.rng.pick(&[400usize, 1000, 1500]),
+                    limit: *ctx.rng.pick(&[16usize << 10, 64 << 10]),
+                };
+                ctx.eval();
+                match check_retention(&r) {
+                    Ok(Some((a, b))) => {
+                        ctx.count("retention_pairs_measured");
+                        ctx.count(&format!("retention_stream:{:?}", r.stream));
+                        let m = a.max(b);
+                        ctx.count(if m < 4096 { "retained_bytes:<4KiB" } else if m < 16384 { "retained_bytes:4-16KiB" } else if m < 65536 { "retained_bytes:16-64KiB" } else { "retained_bytes:>=64KiB" });
+                    }
+                    Ok(None) => ctx.count("retention_runs_stopped_by_the_limit"),
+                    Err((key, msg)) => {
+                        let key = if r.selectors.iter().any(|s| s.contains("of-type")) && matches!(r.stream, crate::retention::Stream::DistinctLongNames | crate::retention::Stream::DistinctShortNames | crate::retention::Stream::NestedGroups | crate::retention::Stream::ClosedByParent) { format!("{key}:nth-of-type-counters-of-distinct-sibling-names") } else { key };
+                        if !ctx.violation(Violation { key, msg, case: serde_json::json!({"retention": r}) }) {
+                            return;
+                        }
+                    }
+                }
+                continue;
             }
             if i % 8 == 5 {
                 let a = Additive { depth: ctx.rng.range(2, 60), token_len: ctx.rng.range(20, 900), split: ctx.rng.range(1, 600), selector: (*ctx.rng.pick(&["*", "div", "div div", ":not(p)", "span, div"])).to_string(), name: (*ctx.rng.pick(&["div", "span", "abcdefghijklmnopq"])).to_string() };
@@ -503,6 +578,13 @@ impl Prop for C10 {
         }
     }
     fn replay(&self, case: &Value) -> Result<Vec<Violation>, String> {
+        if let Some(r) = case.get("retention") {
+            let r: Retention = serde_json::from_value(r.clone()).map_err(|e| e.to_string())?;
+            return match check_retention(&r) {
+                Ok(_) => Ok(vec![]),
+                Err((key, msg)) => Ok(vec![Violation { key, msg, case: case.clone() }]),
+            };
+        }
         if let Some(a) = case.get("additive") {
             let a: Additive = serde_json::from_value(a.clone()).map_err(|e| e.to_string())?;
             return match check_additive(&a) {
